@@ -347,28 +347,40 @@ func analyse(p *pkgInfo) []*entry {
 		n      int
 	}
 	vendorAttr := map[vkey][]string{}
-	for name, fd := range funcs {
-		if !strings.HasSuffix(name, "_Set") || fd.Body == nil {
-			continue
+	// any of X_Set → _V_SetVendor(p, N, a), X_Add → _V_AddVendor(p, N, a), X_Del → _V_DelVendor(p, N),
+	// X_Lookup → _V_LookupVendor(p, N) identifies X as the helper set of vendor attribute N (a template slip in
+	// one of them must reach the checks as behaviour, not stop the registry)
+	for _, pair := range [][2]string{{"_Set", "_SetVendor"}, {"_Add", "_AddVendor"}, {"_Del", "_DelVendor"}, {"_Lookup", "_LookupVendor"}} {
+		for name, fd := range funcs {
+			if !strings.HasSuffix(name, pair[0]) || fd.Body == nil {
+				continue
+			}
+			name := name
+			ast.Inspect(fd.Body, func(n ast.Node) bool {
+				c, ok := n.(*ast.CallExpr)
+				if !ok {
+					return true
+				}
+				id, ok := c.Fun.(*ast.Ident)
+				if !ok || !strings.HasPrefix(id.Name, "_") || !strings.HasSuffix(id.Name, pair[1]) || len(c.Args) < 2 {
+					return true
+				}
+				lit, ok := c.Args[1].(*ast.BasicLit)
+				if !ok {
+					return true
+				}
+				v, _ := strconv.Atoi(lit.Value)
+				k := vkey{strings.TrimSuffix(strings.TrimPrefix(id.Name, "_"), pair[1]), v}
+				x := strings.TrimSuffix(name, pair[0])
+				for _, have := range vendorAttr[k] {
+					if have == x {
+						return true
+					}
+				}
+				vendorAttr[k] = append(vendorAttr[k], x)
+				return true
+			})
 		}
-		ast.Inspect(fd.Body, func(n ast.Node) bool {
-			c, ok := n.(*ast.CallExpr)
-			if !ok {
-				return true
-			}
-			id, ok := c.Fun.(*ast.Ident)
-			if !ok || !strings.HasPrefix(id.Name, "_") || !strings.HasSuffix(id.Name, "_SetVendor") || len(c.Args) != 3 {
-				return true
-			}
-			lit, ok := c.Args[1].(*ast.BasicLit)
-			if !ok {
-				return true
-			}
-			v, _ := strconv.Atoi(lit.Value)
-			k := vkey{strings.TrimSuffix(strings.TrimPrefix(id.Name, "_"), "_SetVendor"), v}
-			vendorAttr[k] = append(vendorAttr[k], strings.TrimSuffix(name, "_Set"))
-			return true
-		})
 	}
 	vendorIdentByID := map[int]string{}
 	for v, id := range vendorID {
